@@ -263,6 +263,9 @@ impl WMon {
             Some(T_REG_ERR) => {
                 self.registered.remove(&path);
                 self.heard.remove(&path);
+                // the link is unusable from this instant: a datagram accepted in the same
+                // millisecond may legitimately find no uplink
+                self.resets.push(now);
             }
             Some(T_REG2) | Some(T_REG_NGP) | None => {}
             Some(t) => {
@@ -522,6 +525,9 @@ async fn run(plan: &LPlan, want_excerpt: bool) -> RunOutcome {
             match ev {
                 Ev::ClientEmit(bytes) => {
                     mon.on_client_inject(now, &bytes, timeout, &mut out);
+                    if want_excerpt && excerpt.len() < 100_000 {
+                        excerpt.push(format!("#{now} t={now} client emits {} bytes seq={:?} judged={:?}", bytes.len(), data_seq(&bytes), mon.accepted.get(&bytes).map(|a| a.0)));
+                    }
                     lq.push(Ok((bytes, client_addr)));
                     injected_client += 1;
                 }
@@ -535,6 +541,9 @@ async fn run(plan: &LPlan, want_excerpt: bool) -> RunOutcome {
                     // telemetry / from the order of creation kept by the seam (see conn_of_fd)
                     if let Some(conn_id) = seam.with(|s| s.fd_conn.get(&fd).copied()) {
                         mon.on_deliver_to_sender(now, path, &bytes, &mut out);
+                        if want_excerpt && excerpt.len() < 100_000 {
+                            excerpt.push(format!("#{now} t={now} to sender on p{path}: type {:x?} {} bytes", ptype(&bytes), bytes.len()));
+                        }
                         let _ = uplink_tx.send(sh::UplinkPacket { conn_id, bytes: SmallVec::from_slice_copy(&bytes) });
                     } else {
                         stats_c.inc("w.dropped_unknown_conn");
@@ -652,7 +661,16 @@ async fn run(plan: &LPlan, want_excerpt: bool) -> RunOutcome {
                 }
             }
             if want_excerpt && excerpt.len() < 100_000 {
-                excerpt.push(format!("#{} t={} wire p{} {:?} x{} -> {:?}", w.t, w.t, path, w.call, w.offered.len(), w.result));
+                excerpt.push(format!(
+                    "#{} t={} wire p{} {:?} x{} -> {:?} judged={:?}",
+                    w.t,
+                    w.t,
+                    path,
+                    w.call,
+                    w.offered.len(),
+                    w.result,
+                    w.offered.iter().map(|d| mon.accepted.get(d).map(|a| a.0).unwrap_or(0)).collect::<Vec<_>>()
+                ));
             }
         }
         for c in &client_out {
